@@ -281,7 +281,8 @@ class PhasePredictor(QTable):
             while (line := f.readline()) :
                 psr, _, _, mjd_mid, dm, *_ = line.split()
                 rphase, f0, obs, span, ncoeff, freq, *_ = f.readline().split()
-                r_int, _, r_frac = rphase.partition(".")
+                r_sign = -1 if rphase.startswith("-") else 1
+                r_int, _, r_frac = rphase.lstrip("+-").partition(".")
 
                 coeffs = []
                 for _ in range(-(int(ncoeff) // -3)):
@@ -290,7 +291,7 @@ class PhasePredictor(QTable):
                 coeffs = np.array(coeffs, dtype=np.float64)
                 if coeffs.size < 2:
                     coeffs = np.pad(coeffs, (0, 2 - coeffs.size))
-                coeffs[0] += float("0." + r_frac)
+                coeffs[0] += r_sign * float("0." + r_frac)
                 coeffs[1] += float(f0) * 60
 
                 entry = PolycoEntry(
@@ -299,7 +300,7 @@ class PhasePredictor(QTable):
                     freq=float(freq) * u.MHz,
                     tmid=Time(mjd_mid, format="mjd", precision=9),
                     span=int(span) * u.min,
-                    rphase=np.int64("0" + r_int),
+                    rphase=r_sign * np.int64("0" + r_int),
                     poly=Polynomial(coeffs, domain=[-60, +60]).convert(),
                 )
 
